@@ -23,7 +23,7 @@ func init() {
 			"Oracle: an exact alignment between the re-tokenised input and output in which every input character appears unchanged, every input tag is kept or replaced by nothing (exactly one space with space insertion) and every output tag is an input tag. " +
 			"non-trivial = the input contains at least one tag, comment or character reference.",
 		Assumptions: []string{"text is what x/net/html's tokenizer reads, as the property states"},
-		QuickBudget:  50, ThoroughBudget: 800,
+		QuickBudget: 50, ThoroughBudget: 800,
 		Run:    runC06,
 		Replay: replayC06,
 	})
